@@ -16,6 +16,8 @@ EXTRA = {  # additional checks that are expected to see a change, besides the pr
     "C01-5b": ["C05"], "C04-5b": ["C12"], "C05-5a": ["C09"], "C05-5b": ["C04"], "C08-5b": ["C03"], "C09-5a": ["C17"], "C09-5b": ["C12", "C13"],
     "C10-5a": ["C16"], "C11-5a": ["C03"], "C11-5b": ["C05", "C04"], "C12-5b": ["C13"], "C13-5b": ["C16"], "C14-5b": ["C15"], "C16-5a": ["C15"],
     "C16-5b": ["C12", "C13"], "C17-5a": ["C05"], "C20-5b": ["C03"],
+    "C01-6b": ["C07"], "C03-6a": ["C17"], "C03-6b": ["C07"], "C04-6b": ["C05"], "C05-6b": ["C07"], "C08-6b": ["C01"], "C09-6b": ["C06"], "C10-6a": ["C06"],
+    "C11-6b": ["C02"], "C12-6b": ["C15"], "C14-6a": ["C12"], "C14-6b": ["C13"], "C16-6b": ["C12"], "C20-6b": ["C17"],
     "C03-2b": ["C09"], "C05-2b": ["C09"], "C10-2a": ["C11", "C09"], "C05-2a": ["C04"], "C06-2b": ["C04"], "C01-2b": ["C07"],
 }
 
